@@ -41,6 +41,7 @@ import shutil
 import subprocess
 import sys
 import time
+import threading
 
 from . import common as C
 
@@ -979,6 +980,8 @@ def engines_verdict(ctx, classes, stats, ths, res):
         d["mappings_kept_per_engine"] = round(per, 1)
         if d["panic"]:
             i, what = d["panic"]
+            if " | " not in what:
+                what = what.replace(" / ", " | ", 2)       # (the record writer turns `|` into `/`)
             key = "engines:" + ("panic:" + panic_class(what).split(":", 1)[1] if " | " in what else "error")
             if label == "no-jit":
                 key += ":without-jit"
